@@ -157,7 +157,10 @@ Definition split_pred (fixed : bool) (k : wcase) : bool * bool :=
       (existsb (fun b => let kk := kseq rnd_haz (w_box k) (vsub (st_pos (fst wf) (snd b)) (st_pos (fst wf) (fst b))) in
                          negb ((vx kk =? 0) && (vy kk =? 0) && (vz kk =? 0))) (w_added k), snd wf)
   end.
+(* bit 3: the repaired walk fails the executable certificate [walk_ok] of Props/C11.v whole_fixed_order_partial *)
 Definition w_split_code (k : wcase) : Z :=
   let c := split_pred false k in
   let f := split_pred true k in
-  (if fst c then 1 else 0) + (if fst f then 2 else 0) + (if snd c || snd f then 4 else 0).
+  let nb := map norm_bond (w_added k) in
+  (if fst c then 1 else 0) + (if fst f then 2 else 0) + (if snd c || snd f then 4 else 0) +
+  (if walk_ok (length (w_xyz k)) nb (tree_order (length (w_xyz k)) nb) then 0 else 8).
